@@ -1,40 +1,59 @@
-"""C05 - frontend input sanitisation leaves untargeted text untouched."""
+"""C05 - frontend input sanitisation leaves untargeted text untouched.
+
+The sanitiser (loki/frontend/preprocessing.py) works line by line on the source text, so almost
+everything the statement promises can be decided without a compiler: the regenerated code of a
+generated routine must consist of the same statements (whitespace/case-insensitively outside
+character literals, literals by value) and the same comments as the original, and the IR must
+carry the generator's literal values, comment texts and variable names. A small deterministic
+sample of the cases that pass this is additionally compiled and run (original vs regenerated).
+"""
+import copy
 import re
 
 from hypothesis import strategies as st
 
-from ..core import exc_bucket
+from ..core import exc_bucket, case_hash
 from ..fprog import harness
 from ..fprog.native import make_driver
 
 ID = 'C05'
 LEVEL = 'exploration'
-TECHNIQUE = 'generated programs with sanitiser trigger text in untargeted positions; IR content oracle + differential execution (gfortran) of regenerated code'
-RULE = ('a module routine is generated whose string literals (both quote kinds, doubled quotes), full-line and trailing comments, '
-        'identifiers and OPEN statements contain each trigger (__FILE__ __FILENAME__ __DATE__ __VERSION__ __LINE__ @PROCESS CONVERT= NEWUNIT=) '
-        'at start/middle/end/alone, OPEN with CONVERT/NEWUNIT in every argument position, case and spacing, optionally continued. '
-        'Oracle: parse succeeds; multiset of StringLiteral values, comment texts and variable names in the IR equals the generated one; '
-        'emitted OPEN keeps every specifier; regenerated program prints the same output. non-trivial = at least one trigger sits in an '
-        'untargeted position (literal/comment/identifier) and that literal is printed; distinct by case hash')
+TECHNIQUE = ('generated routines with sanitiser trigger text in untargeted positions; statement/comment/literal equality of '
+             'regenerated code and IR against generator ground truth (own free-form scanner); gfortran differential run on a sample')
+RULE = ('a module routine is generated whose string literals (both quote kinds, doubled quotes, "!" inside, optionally continued over '
+        'two lines), full-line and trailing comments, identifiers and OPEN statements contain each trigger (__FILE__ __FILENAME__ '
+        '__DATE__ __VERSION__ __LINE__ @PROCESS CONVERT= NEWUNIT=) at start/middle/end/alone; OPEN with CONVERT/NEWUNIT in every '
+        'argument position, keyword case and spacing, optionally continued, unit as scalar or array element, file-name literals that '
+        'contain NEWUNIT=/CONVERT= text, a trailing comment or a second statement on the OPEN line, optionally behind a logical IF; '
+        'optionally a real @PROCESS directive line. Oracle: parse succeeds; list of statements and multiset of comments of the '
+        'regenerated code equal those of the original; StringLiteral values and variable names in the IR equal the generated ones; '
+        'for 1 case in 48 (by case hash) original and regenerated program are compiled and must print the same. '
+        'non-trivial = at least one trigger sits in an untargeted position (literal/comment/identifier/file-name literal/OPEN-line '
+        'tail) or an OPEN statement engages a workaround; distinct by case hash')
 ASSUMPTIONS = ['file suffix .f90: gfortran does not run cpp, so trigger text in literals is ordinary text',
-               'gfortran 12 is the reference for "the program still parses and prints the same"']
+               'gfortran 12 is the reference for "the program still parses and prints the same" on the sampled cases',
+               'the free-form scanner of this module (continuations, quote doubling, comments) is validated on every case against '
+               'the generator ground truth (literal values, comment texts) before it is used on regenerated code',
+               'root causes listed as known are switched off in generated OPEN statements (counted as excluded); '
+               'the model deciding when a workaround engages is the documented intent of the two OPEN regexes (OPEN at line start, '
+               'keyword directly followed by "=" on that line)']
 SHARDS = {'quick': 8, 'thorough': 16}
 BUDGET = {'quick': 70, 'thorough': 1200}
+DIFF_SAMPLE = 48
 
-TRIGGERS = ['__FILE__', '__FILENAME__', '__DATE__', '__VERSION__', '__LINE__', '@PROCESS', "CONVERT=", 'NEWUNIT=',
-            "convert='big_endian'", 'newunit=u']
 TRIG_CLASS = {'__FILE__': 'string-pp', '__FILENAME__': 'string-pp', '__DATE__': 'string-pp', '__VERSION__': 'string-pp',
-              '__LINE__': 'line-pp', '@PROCESS': 'ibm', 'CONVERT=': 'convert-text', 'NEWUNIT=': 'newunit-text',
-              "convert='big_endian'": 'convert-text', 'newunit=u': 'newunit-text'}
-SAFE = 'abc xyz 012 ,.;:()=+-*/<>_%'
-
+              '__LINE__': 'line-pp', '@PROCESS': 'ibm', '@PROCESS HOT(NOVECTOR)': 'ibm',
+              'CONVERT=': 'convert-text', 'NEWUNIT=': 'newunit-text',
+              "convert='big_endian'": 'convert-text', 'CONVERT="LITTLE_ENDIAN"': 'convert-text', 'newunit=u': 'newunit-text',
+              "open(newunit=u, convert='big_endian')": 'newunit-text'}
+SAFE = 'abc xyz 012 ,.;:()=+-*/<>_%!'
 
 HAZARDS = {
     'string-pp': ['__FILE__', '__FILENAME__', '__DATE__', '__VERSION__'],
     'line-pp': ['__LINE__'],
-    'ibm': ['@PROCESS'],
+    'ibm': ['@PROCESS', '@PROCESS HOT(NOVECTOR)'],
     'convert-text': ['CONVERT=', "convert='big_endian'", 'CONVERT="LITTLE_ENDIAN"'],
-    'newunit-text': ['NEWUNIT=', 'newunit=u'],
+    'newunit-text': ['NEWUNIT=', 'newunit=u', "open(newunit=u, convert='big_endian')"],
 }
 IDENT_TRIGS = {
     'string-pp': ['__FILE__', '__DATE__', '__VERSION__', '__FILENAME__'],
@@ -43,7 +62,15 @@ IDENT_TRIGS = {
     'convert-text': ['convert', 'CONVERT'],
     'newunit-text': ['newunit', 'NEWUNIT'],
 }
+PLAIN_FILE = "'lv_c05.dat'"
+FILE_LITERALS = {'plain': [PLAIN_FILE], 'newunit-text': ["'lv_newunit=7.dat'", '"lv_NEWUNIT=u"'],
+                 'convert-text': ['"lv_convert=\'big_endian\'.dat"', "'lv_CONVERT=\"BIG_ENDIAN\"'"]}
+TAIL_COMMENTS = [' note', " convert='big_endian' was here", ' was newunit=u before', ' __LINE__']
 
+
+# ---------------------------------------------------------------------------------------------
+# generator
+# ---------------------------------------------------------------------------------------------
 
 @st.composite
 def texts(draw, trigs, allow_quote=True):
@@ -75,38 +102,50 @@ def texts(draw, trigs, allow_quote=True):
 def open_stmt(draw):
     """specifier list for an OPEN statement; returns dict"""
     use_newunit = draw(st.booleans())
-    convert = draw(st.sampled_from([None, 'big_endian', 'little_endian', 'BIG_ENDIAN']))
-    specs = [['file', "'lv_c05.dat'"], ['status', "'replace'"], ['form', "'unformatted'"]]
+    convert = draw(st.sampled_from([None, None, 'big_endian', 'little_endian', 'BIG_ENDIAN']))
+    fkind = draw(st.sampled_from(['plain', 'plain', 'plain', 'newunit-text', 'convert-text']))
+    specs = [['file', draw(st.sampled_from(FILE_LITERALS[fkind]))], ['status', "'replace'"], ['form', "'unformatted'"]]
     if draw(st.booleans()):
         specs.append(['action', "'write'"])
     if convert:
         specs.append(['convert', f"'{convert}'" if draw(st.booleans()) else f'"{convert}"'])
-    specs.append(['newunit', 'u'] if use_newunit else ['unit', 'u'])
+    unitx = draw(st.sampled_from(['u', 'u', 'us(1)', 'us(1,2)']))
+    specs.append(['newunit', unitx] if use_newunit else ['unit', unitx])
     order = draw(st.permutations(range(len(specs))))
     specs = [specs[i] for i in order]
     case = draw(st.sampled_from(['lower', 'upper', 'cap']))
-    spc = draw(st.sampled_from(['', ' ']))
+    spc = draw(st.sampled_from(['', '', ' ']))
     cont = draw(st.integers(0, len(specs) - 1)) if draw(st.integers(0, 3)) == 0 else None
     openkw = draw(st.sampled_from(['open', 'OPEN', 'Open', 'open ']))
-    return {'specs': specs, 'case': case, 'spc': spc, 'cont': cont, 'openkw': openkw, 'newunit': use_newunit}
+    tail = draw(st.sampled_from([None, None, None, 'comment', 'stmt']))
+    if tail == 'comment':
+        tail = {'kind': 'comment', 'text': draw(st.sampled_from(TAIL_COMMENTS))}
+    elif tail == 'stmt':
+        tail = {'kind': 'stmt'}
+    prefix = draw(st.integers(0, 7)) == 0
+    return {'specs': specs, 'case': case, 'spc': spc, 'cont': cont, 'openkw': openkw, 'newunit': use_newunit,
+            'tail': tail, 'prefix': prefix}
 
 
 @st.composite
-def cases(draw):
+def cases(draw, big=False):
     # one hazard class and one hazard position per case, so that every failure is attributable
     hazard = draw(st.sampled_from(['string-pp', 'line-pp', 'ibm', 'convert-text', 'newunit-text', 'none']))
     position = draw(st.sampled_from(['literal', 'literal', 'comment', 'identifier'])) if hazard != 'none' else 'none'
     trigs = HAZARDS.get(hazard, [])
-    nl = draw(st.integers(1, 4))
+    nl = draw(st.integers(1, 8 if big else 4))
     lits = []
     for k in range(nl):
         t, trig = draw(texts(trigs if position == 'literal' and (k == 0 or draw(st.booleans())) else []))
-        lits.append({'text': t, 'trig': trig, 'q': draw(st.sampled_from(["'", '"'])),
-                     'how': draw(st.sampled_from(['print', 'assign', 'concat']))})
+        lit = {'text': t, 'trig': trig, 'q': draw(st.sampled_from(["'", '"'])),
+               'how': draw(st.sampled_from(['print', 'assign', 'concat'])), 'split': None}
+        if len(t) >= 2 and draw(st.integers(0, 3)) == 0:
+            lit['split'] = draw(st.integers(1, len(t) - 1))
+        lits.append(lit)
     comments = []
-    for k in range(draw(st.integers(1 if position == 'comment' else 0, 3))):
+    for k in range(draw(st.integers(1 if position == 'comment' else 0, 6 if big else 3))):
         t, trig = draw(texts(trigs if position == 'comment' and (k == 0 or draw(st.booleans())) else []))
-        comments.append({'text': ' ' + t, 'trig': trig, 'trailing': draw(st.booleans())})
+        comments.append({'text': draw(st.sampled_from([' ', ' ', ''])) + t, 'trig': trig, 'trailing': draw(st.booleans())})
     idents = []
     for k in range(draw(st.integers(1 if position == 'identifier' else 0, 2))):
         if position == 'identifier':
@@ -118,15 +157,34 @@ def cases(draw):
         if name.lower() not in [i['name'].lower() for i in idents]:
             idents.append({'name': name, 'trig': trig if position == 'identifier' else None, 'val': draw(st.integers(1, 9))})
     op = draw(st.one_of(st.none(), open_stmt(), open_stmt()))
+    ibm_line = draw(st.sampled_from([None] * 10 + ['top', 'body']))
     return {'hazard': hazard, 'position': position, 'lits': lits, 'comments': comments, 'idents': idents, 'open': op,
+            'ibm_line': ibm_line,
             'entry': {'module': 'kmod', 'name': 'kernel', 'args': [
                 {'name': 'n', 'type': 'int', 'dims': None, 'intent': 'in'},
                 {'name': 'yi0', 'type': 'int', 'dims': None, 'intent': 'inout'}]},
             'inputs': [{'n': 3, 'yi0': 4}, {'n': 5, 'yi0': -2}]}
 
 
+# ---------------------------------------------------------------------------------------------
+# rendering (ground truth) and a small free-form scanner
+# ---------------------------------------------------------------------------------------------
+
 def q(text, qc):
     return qc + text.replace(qc, qc + qc) + qc
+
+
+def lit_lines(lit, head, tail=''):
+    """source line(s) of `head <literal> tail`, the literal optionally continued over two lines"""
+    if lit.get('split') is None:
+        return [head + q(lit['text'], lit['q']) + tail]
+    k, qc = lit['split'], lit['q']
+    a, b = lit['text'][:k], lit['text'][k:]
+    return [head + qc + a.replace(qc, qc + qc) + '&', '      &' + b.replace(qc, qc + qc) + qc + tail]
+
+
+def unit_expr(op):
+    return next(v for k, v in op['specs'] if k in ('unit', 'newunit'))
 
 
 def open_text(op):
@@ -134,186 +192,464 @@ def open_text(op):
         return {'lower': k.lower(), 'upper': k.upper(), 'cap': k.capitalize()}[op['case']]
     parts = [f"{kw(k)}{op['spc']}={op['spc']}{v}" for k, v in op['specs']]
     lines = []
-    cur = '    ' + op['openkw'] + '('
+    cur = '    ' + ('if (n > 0) ' if op.get('prefix') else '') + op['openkw'] + '('
     for i, p in enumerate(parts):
         cur += p + (', ' if i + 1 < len(parts) else ')')
         if op['cont'] == i and i + 1 < len(parts):
             lines.append(cur + '&')
             cur = '      & '
+    tail = op.get('tail')
+    if tail and tail['kind'] == 'comment':
+        cur += ' !' + tail['text']
+    elif tail:
+        cur += '; yi0 = yi0 + 1'
     lines.append(cur)
     return lines
 
 
+IBM_LINE = '@PROCESS HOT(NOVECTOR) NOSTRICT'
+
+
 def build_source(case):
-    L = ['module kmod', '  implicit none', 'contains', '  subroutine kernel(n, yi0)',
-         '    integer, intent(in) :: n', '    integer, intent(inout) :: yi0',
-         '    character(len=200) :: sbuf', '    integer :: u']
+    """returns (text, comment_tags): comment_tags[i] names the item the i-th comment of the text belongs to"""
+    L, ctags = [], []
+    if case.get('ibm_line') == 'top':
+        L.append(IBM_LINE)
+    L += ['module kmod', '  implicit none', 'contains', '  subroutine kernel(n, yi0)',
+          '    integer, intent(in) :: n', '    integer, intent(inout) :: yi0',
+          '    character(len=200) :: sbuf', '    integer :: u', '    integer :: us(2,2)']
     for idn in case['idents']:
         L.append(f"    integer :: {idn['name']}")
-    comments = list(case['comments'])
+    comments = [(i, c) for i, c in enumerate(case['comments'])]
     L.append('    u = 17')
+    L.append('    us = 17')
     L.append("    sbuf = ' '")
+    if case.get('ibm_line') == 'body':
+        L.append(IBM_LINE)
     for idn in case['idents']:
         L.append(f"    {idn['name']} = {idn['val']} + n")
         L.append(f"    yi0 = yi0 + {idn['name']}")
-    for i, lit in enumerate(case['lits']):
-        s = q(lit['text'], lit['q'])
+    for lit in case['lits']:
         trailing = ''
-        if comments and comments[0]['trailing']:
-            trailing = ' !' + comments.pop(0)['text']
+        if comments and comments[0][1]['trailing']:
+            i, c = comments.pop(0)
+            trailing = ' !' + c['text']
+            ctags.append(('comment', i))
         elif comments:
-            L.append('    !' + comments.pop(0)['text'])
+            i, c = comments.pop(0)
+            L.append('    !' + c['text'])
+            ctags.append(('comment', i))
         if lit['how'] == 'print':
-            L.append(f"    print '(A)', {s}" + trailing)
+            L += lit_lines(lit, "    print '(A)', ", trailing)
         elif lit['how'] == 'assign':
-            L.append(f'    sbuf = {s}' + trailing)
+            L += lit_lines(lit, '    sbuf = ', trailing)
             L.append("    print '(A)', trim(sbuf)")
         else:
-            L.append(f"    print '(A)', 'pre' // {s} // 'post'" + trailing)
-    for c in comments:
+            L += lit_lines(lit, "    print '(A)', 'pre' // ", " // 'post'" + trailing)
+    for i, c in comments:
         L.append('    !' + c['text'])
+        ctags.append(('comment', i))
     if case['open']:
-        L += open_text(case['open'])
-        L.append('    write(u) n + yi0')
-        L.append("    close(u, status='delete')")
+        op = case['open']
+        L += open_text(op)
+        if op.get('tail') and op['tail']['kind'] == 'comment':
+            ctags.append(('open', None))
+        L.append(f'    write({unit_expr(op)}) n + yi0')
+        L.append(f"    close({unit_expr(op)}, status='delete')")
         L.append('    yi0 = yi0 + 1')
     L += ['  end subroutine kernel', 'end module kmod', '']
-    return '\n'.join(L)
+    return '\n'.join(L), ctags
 
 
-def string_literals_in(text):
-    """values of the character literals in a piece of Fortran text (quote doubling resolved)"""
-    out, i, n = [], 0, len(text)
+class Lit(str):
+    """a character literal inside a scanned statement (compared by value)"""
+
+
+def scan(text):
+    """
+    Free-form Fortran scanner: returns (statements, comments). A statement is a tuple of code fragments
+    (str: blanks removed, lower-cased) and Lit values (quote doubling resolved, continuation joined);
+    a comment is the text from '!' to the end of the line, trailing blanks removed.
+    """
+    stmts, comments = [], []
+    cur, code = [], []
+    quote, val, cont = None, [], False
+
+    def flush_code():
+        if code:
+            cur.append(''.join(code))
+            code.clear()
+
+    def end_stmt():
+        flush_code()
+        if cur:
+            stmts.append(tuple(cur))
+            cur.clear()
+
+    for line in text.split('\n'):
+        j, n = 0, len(line)
+        if cont:
+            k = len(line) - len(line.lstrip())
+            if line[k:k + 1] == '&':
+                j = k + 1
+            elif quote is None:
+                j = k
+        cont = False
+        while j < n:
+            ch = line[j]
+            if quote is not None:
+                if ch == quote:
+                    if line[j + 1:j + 2] == quote:
+                        val.append(quote)
+                        j += 2
+                        continue
+                    cur.append(Lit(''.join(val)))
+                    quote, val = None, []
+                elif ch == '&' and not line[j + 1:].strip():
+                    cont = True
+                    break
+                else:
+                    val.append(ch)
+            elif ch in '\'"':
+                flush_code()
+                quote = ch
+            elif ch == '!':
+                comments.append(line[j:].rstrip())
+                break
+            elif ch == '&' and (not line[j + 1:].strip() or line[j + 1:].lstrip().startswith('!')):
+                cont = True
+            elif ch == ';':
+                end_stmt()
+            elif not ch.isspace():
+                code.append(ch.lower())
+            j += 1
+        if not cont:
+            if quote is not None:      # unterminated literal: keep what there is, visibly marked
+                cur.append(Lit(''.join(val) + '<unterminated>'))
+                quote, val = None, []
+            end_stmt()
+    end_stmt()
+    return stmts, comments
+
+
+def show(stmt):
+    return ''.join(q(p, "'") if isinstance(p, Lit) else p for p in stmt)
+
+
+def lits_of(stmt):
+    return [str(p) for p in stmt if isinstance(p, Lit)]
+
+
+# ---------------------------------------------------------------------------------------------
+# model of the OPEN workarounds: which known root cause does a generated OPEN statement trigger?
+# ---------------------------------------------------------------------------------------------
+
+SIG_OPEN_LITERAL = 'C05:open:newunit-text-in-literal'
+SIG_OPEN_COMMA = 'C05:open:newunit-value-with-comma'
+SIG_OPEN_CONVERT_FIRST = 'C05:open:convert-first'
+SIG_OPEN_TAIL = 'C05:open:rest-of-line-duplicated'
+SIG_OPEN_BOTH = 'C05:open:convert-lost-with-newunit'
+OPEN_SIGS = [SIG_OPEN_LITERAL, SIG_OPEN_COMMA, SIG_OPEN_CONVERT_FIRST, SIG_OPEN_TAIL, SIG_OPEN_BOTH]
+
+
+def _literal_spans(line):
+    spans, i, n = [], 0, len(line)
     while i < n:
-        c = text[i]
-        if c in "'\"":
-            j, val = i + 1, ''
+        c = line[i]
+        if c == '!':
+            break
+        if c in '\'"':
+            j = i + 1
             while j < n:
-                if text[j] == c:
-                    if j + 1 < n and text[j + 1] == c:
-                        val += c
+                if line[j] == c:
+                    if line[j + 1:j + 2] == c:
                         j += 2
                         continue
                     break
-                val += text[j]
                 j += 1
-            out.append(val)
+            spans.append((i, j))
             i = j + 1
         else:
             i += 1
-    return out
+    return spans
 
 
-def open_shape(op):
-    keys = [k for k, _ in op['specs']]
-    def pos(k):
-        if k not in keys:
-            return 'none'
-        i = keys.index(k)
-        return 'first' if i == 0 else ('last' if i == len(keys) - 1 else 'middle')
-    return f"convert-{pos('convert')}:newunit-{pos('newunit')}" + (':continued' if op['cont'] is not None else '')
+def open_traits(op):
+    """which root causes the first line of this OPEN statement can trigger (model; names and exclusion only)"""
+    first = open_text(op)[0]
+    traits = set()
+    m = re.match(r'\s*open\s*\(', first, re.I)
+    if not m:
+        return traits
+    spans = _literal_spans(first)
+    nu = re.search(r'newunit=', first, re.I)
+    cv = re.search(r'''convert=['"](?:big|little)_endian['"]''', first, re.I)
+    if nu and any(a < nu.start() < b for a, b in spans):
+        traits.add(SIG_OPEN_LITERAL)
+    elif nu and nu.start() < (first.index('!') if '!' in first else len(first)):
+        if ',' in unit_expr(op) and first[m.end():nu.start()].strip():
+            traits.add(SIG_OPEN_COMMA)
+    if cv and not first[m.end():cv.start()].strip():
+        traits.add(SIG_OPEN_CONVERT_FIRST)
+    if (nu or cv) and op.get('tail'):
+        traits.add(SIG_OPEN_TAIL)
+    if nu and cv:
+        traits.add(SIG_OPEN_BOTH)
+    return traits
 
 
-def norm_tokens(s):
-    return re.sub(r'\s+', '', s).lower()
+def repair(case, ctx):
+    """switch off the trigger of every *listed* OPEN root cause (exclusion by construction, counted)"""
+    op = case['open']
+    if not op or not ctx.known_sigs:
+        return case
+    case = copy.deepcopy(case)
+    op = case['open']
+    for _ in range(8):
+        hit = [s for s in OPEN_SIGS if s in ctx.known_sigs and s in open_traits(op)]
+        if not hit:
+            break
+        sig = hit[0]
+        ctx.exclude(sig.replace('C05:', 'known:'))
+        if sig == SIG_OPEN_LITERAL:
+            op['specs'] = [[k, PLAIN_FILE if k == 'file' else v] for k, v in op['specs']]
+        elif sig == SIG_OPEN_COMMA:
+            op['specs'] = [[k, 'us(1)' if k == 'newunit' else v] for k, v in op['specs']]
+        elif sig == SIG_OPEN_CONVERT_FIRST:
+            op['specs'] = op['specs'][1:] + op['specs'][:1]
+            if op['cont'] is not None:
+                op['cont'] = None
+        elif sig == SIG_OPEN_TAIL:
+            op['tail'] = None
+        elif sig == SIG_OPEN_BOTH:
+            if any(k == 'convert' for k, _ in op['specs']) and len(op['specs']) % 2:
+                op['specs'] = [s for s in op['specs'] if s[0] != 'convert']
+            elif any(k == 'newunit' for k, _ in op['specs']):
+                op['specs'] = [['unit' if k == 'newunit' else k, v] for k, v in op['specs']]
+                op['newunit'] = False
+            else:
+                op['specs'] = [[k, PLAIN_FILE if k == 'file' else v] for k, v in op['specs']]
+    return case
 
 
-def check_case(case, ctx):
-    src = build_source(case)
-    hz = f"{case['position']}:{case['hazard']}"
-    classes = [f'hazard:{hz}']
-    if case['open']:
-        classes.append('open:newunit' if case['open']['newunit'] else 'open:unit')
-        if any(k == 'convert' for k, _ in case['open']['specs']):
+def open_sig(op, symptom):
+    """signature of a failure located in the OPEN statement: first listed root cause it can trigger, else the symptom"""
+    traits = open_traits(op)
+    for s in OPEN_SIGS:
+        if s in traits:
+            return s
+    return f'C05:open:{symptom}'
+
+
+# ---------------------------------------------------------------------------------------------
+# oracle
+# ---------------------------------------------------------------------------------------------
+
+def lit_position(lit):
+    return 'literal-continued' if lit.get('split') is not None else 'literal'
+
+
+def cls(trig):
+    return TRIG_CLASS.get(trig) or next((c for c, ts in IDENT_TRIGS.items() if trig in ts), 'no-trigger') if trig else 'no-trigger'
+
+
+def neutral_text(case):
+    return dict(case, lits=[dict(l, text='zz' if l['trig'] else l['text'], split=None) for l in case['lits']],
+                comments=[dict(c, text=' zz' if c['trig'] else c['text']) for c in case['comments']],
+                idents=[dict(i, name=f'zz{k}' if i['trig'] else i['name']) for k, i in enumerate(case['idents'])])
+
+
+def hazard_sigs(case):
+    """signatures of the text hazards present in the case (for attributing a parse failure)"""
+    sigs = []
+    for l in case['lits']:
+        if l['trig']:
+            sigs.append(f'C05:{lit_position(l)}:{cls(l["trig"])}')
+    for c in case['comments']:
+        if c['trig']:
+            sigs.append(f'C05:comment:{cls(c["trig"])}')
+    for i in case['idents']:
+        if i['trig']:
+            sigs.append(f'C05:identifier:{cls(i["trig"])}')
+    return sorted(set(sigs))
+
+
+def try_parse(text):
+    from loki import Sourcefile
+    from loki.frontend import FP
+    try:
+        return Sourcefile.from_source(text, frontend=FP), None
+    except Exception as e:  # noqa
+        return None, e
+
+
+def classes_of(case):
+    classes = [f'hazard:{case["position"]}:{case["hazard"]}']
+    for l in case['lits']:
+        if l.get('split') is not None:
+            classes.append('literal:continued' + (':with-trigger' if l['trig'] else ''))
+        classes.append('literal:' + ('dq' if l['q'] == '"' else 'sq') + ':' + l['how'])
+    for c in case['comments']:
+        classes.append('comment:' + ('trailing' if c['trailing'] else 'full-line') + (':with-trigger' if c['trig'] else ''))
+    if case.get('ibm_line'):
+        classes.append('ibm-directive-line:' + case['ibm_line'])
+    op = case['open']
+    if op:
+        keys = [k for k, _ in op['specs']]
+        classes.append('open:newunit' if 'newunit' in keys else 'open:unit')
+        classes.append('open:unit-expr:' + unit_expr(op))
+        if 'convert' in keys:
             classes.append('open:convert')
-        if case['open']['cont'] is not None:
+            classes.append('open:convert:' + ('first' if keys[0] == 'convert' else 'last' if keys[-1] == 'convert' else 'middle'))
+        if 'convert' in keys and 'newunit' in keys:
+            classes.append('open:convert+newunit')
+        fval = next(v for k, v in op['specs'] if k == 'file')
+        classes.append('open:file-literal:' + next(k for k, vs in FILE_LITERALS.items() if fval in vs))
+        if op['cont'] is not None:
             classes.append('open:continued')
-    ctx.case(case, case['hazard'] != 'none', classes)
+        if op['spc']:
+            classes.append('open:spaces-around-equals')
+        if op.get('tail'):
+            classes.append('open:tail:' + op['tail']['kind'])
+        if op.get('prefix'):
+            classes.append('open:behind-logical-if')
+        first = open_text(op)[0]
+        if re.match(r'\s*open\s*\(', first, re.I) and re.search(r'newunit=|convert=', first, re.I):
+            classes.append('open:workaround-engaged')
+    return classes
+
+
+def nontrivial(case):
+    if case['hazard'] != 'none':
+        return True
+    op = case['open']
+    return bool(op) and 'open:workaround-engaged' in classes_of(case)
+
+
+def check_case(case, ctx, sample_differential=True):
+    case = repair(case, ctx)
+    src, ctags = build_source(case)
+    hz = f"{case['position']}:{case['hazard']}"
+    ctx.case(case, nontrivial(case), classes_of(case))
     if len(ctx.samples) < 3:
         ctx.sample({'source': src})
-    driver = make_driver(case)
-    rendered = [{'name': 'kmod.f90', 'text': src}]
-    orig = harness.run_original(case, rendered, driver)
-    if not orig.ok:
-        raise harness.GeneratorBug('C05 original traps: ' + orig.brief() + '\n' + src)
 
-    from loki import Sourcefile, FindNodes
-    from loki.frontend import FP
-    from loki.ir import nodes as ir
-    from loki.expression import symbols as sym
-    from loki import FindLiterals
+    # ---- ground truth and validation of the scanner on the original -------------------------------
+    o_stmts, o_comments = scan(src)
+    o_lits = [v for s in o_stmts for v in lits_of(s)]
+    for l in case['lits']:
+        if l['text'] not in o_lits:
+            raise harness.GeneratorBug(f'C05 scanner/generator disagree on literal {l["text"]!r}:\n{src}')
+    exp_comments = ['!' + c['text'] for c in case['comments']]
+    if case['open'] and case['open'].get('tail') and case['open']['tail']['kind'] == 'comment':
+        exp_comments.append('!' + case['open']['tail']['text'])
+    if sorted(c.rstrip() for c in exp_comments) != sorted(o_comments) or len(ctags) != len(o_comments):
+        raise harness.GeneratorBug(f'C05 scanner/generator disagree on comments {exp_comments!r} vs {o_comments!r}:\n{src}')
 
-    def try_parse(text):
-        try:
-            return Sourcefile.from_source(text, frontend=FP), None
-        except Exception as e:  # noqa
-            return None, e
-
+    # ---- (1) the program still parses --------------------------------------------------------------
     sf, err = try_parse(src)
     if sf is None:
-        # "the program still parses" is part of the statement; attribute the failure by ablation
-        no_open = dict(case, open=None)
-        neutral = dict(case, lits=[dict(l, text='zz' if l['trig'] else l['text']) for l in case['lits']],
-                       comments=[dict(c, text=' zz' if c['trig'] else c['text']) for c in case['comments']],
-                       idents=[dict(i, name=f'zz{k}' if i['trig'] else i['name']) for k, i in enumerate(case['idents'])])
-        ok_no_open = case['open'] is not None and try_parse(build_source(no_open))[0] is not None
-        ok_neutral = case['hazard'] != 'none' and try_parse(build_source(neutral))[0] is not None
-        if ok_no_open and not ok_neutral:
-            ctx.fail(f'C05:parse-fails:open:{open_shape(case["open"])}', case, f'{exc_bucket(err)}: {err!r}'[:400])
-        elif ok_neutral and not ok_no_open:
-            ctx.fail(f'C05:parse-fails:{hz}', case, f'{exc_bucket(err)}: {err!r}'[:400])
-        elif ok_neutral and ok_no_open:
-            ctx.fail(f'C05:parse-fails:{hz}+open:{open_shape(case["open"])}', case, f'{exc_bucket(err)}: {err!r}'[:400])
-        else:
-            ctx.fail(f'C05:parse-fails:unattributed:{exc_bucket(err)}', case, f'{err!r}'[:400])
+        what = f'{exc_bucket(err)}: {err!r}'[:400]
+        blamed = False
+        # the sanitiser works line by line: attribute by parsing the text hazards and the OPEN statement alone
+        if case['hazard'] != 'none' and try_parse(build_source(dict(case, open=None, ibm_line=None))[0])[0] is None:
+            blamed = True
+            sigs = hazard_sigs(case)
+            if len(sigs) > 1:       # several hazard items in one case: find the one(s) that break the parse alone
+                alone = []
+                for s in sigs:
+                    only = dict(case, open=None, ibm_line=None,
+                                lits=[l if f'C05:{lit_position(l)}:{cls(l["trig"])}' == s else dict(l, text='zz', trig=None, split=None)
+                                      for l in case['lits']])
+                    if case['position'] != 'literal' or try_parse(build_source(only)[0])[0] is None:
+                        alone.append(s)
+                sigs = alone or sigs
+            for s in sigs:
+                ctx.fail(s, case, 'parse fails: ' + what)
+        if case['open'] and try_parse(build_source(dict(neutral_text(case), ibm_line=None))[0])[0] is None:
+            blamed = True
+            ctx.fail(open_sig(case['open'], 'parse-fails'), case, 'parse fails: ' + what)
+        if not blamed:
+            ctx.fail('C05:parse-fails:unattributed', case, what)
         return
+
+    from loki import FindNodes, FindLiterals
+    from loki.ir import nodes as ir
+    from loki.expression import symbols as sym
     routine = sf['kernel']
     nfail0 = sum(e['count'] for e in ctx.failures.values())
-    # (2) literal values
+
+    # ---- (2) IR content: literal values, comments, variable names ---------------------------------------
     lit_values = [str(l.value) for l in FindLiterals(unique=False).visit(routine.body) if isinstance(l, sym.StringLiteral)]
-    generic = [n.text for n in FindNodes(ir.GenericStmt).visit(routine.body)]
     for l in case['lits']:
-        if l['how'] == 'assign':
-            ok = l['text'] in lit_values
-        else:   # PRINT is kept as a generic statement: the literal value must appear among the literals of its text
-            ok = any(l['text'] in string_literals_in(g) for g in generic)
-        if not ok:
-            ctx.fail(f'C05:literal-changed:{hz if l["trig"] else "no-trigger"}', case,
-                     f'literal {l["text"]!r} not found among IR literals {lit_values!r} / statements {generic!r}'[:600])
-    # comments
-    ctexts = [c.text for c in FindNodes(ir.Comment).visit(routine.ir)]
-    for blk in FindNodes(ir.CommentBlock).visit(routine.ir):
+        if l['how'] == 'assign' and l['text'] not in lit_values:
+            ctx.fail(f'C05:{lit_position(l)}:{cls(l["trig"])}', case,
+                     f'literal {l["text"]!r} not found among the StringLiteral values of the IR {lit_values!r}'[:600])
+    ctexts = [c.text for c in FindNodes(ir.Comment).visit(sf.ir)]
+    for blk in FindNodes(ir.CommentBlock).visit(sf.ir):
         ctexts += [c.text for c in blk.comments]
-    trailing = [getattr(n, 'comment', None) for n in FindNodes((ir.Assignment, ir.GenericStmt, ir.CallStatement)).visit(routine.body)]
-    ctexts += [c.text for c in trailing if c is not None]
+    for node in FindNodes((ir.Assignment, ir.GenericStmt, ir.CallStatement, ir.Conditional)).visit(routine.body):
+        if getattr(node, 'comment', None) is not None:
+            ctexts.append(node.comment.text)
+    ctexts = [c.strip() for c in ctexts]
     for c in case['comments']:
-        if not any(ct.strip() == ('!' + c['text']).strip() for ct in ctexts):
-            ctx.fail(f'C05:comment-changed:{hz if c["trig"] else "no-trigger"}', case,
-                     f'comment {"!" + c["text"]!r} not found among {ctexts!r}')
-    # identifiers
+        if ('!' + c['text']).strip() not in ctexts:
+            ctx.fail(f'C05:comment:{cls(c["trig"])}', case, f'comment {"!" + c["text"]!r} not found among IR comments {ctexts!r}'[:600])
     names = {v.name.lower() for v in routine.variables}
     for i in case['idents']:
         if i['name'].lower() not in names:
-            ctx.fail(f'C05:identifier-changed:{hz if i["trig"] else "no-trigger"}', case,
-                     f'variable {i["name"]} not among {sorted(names)}')
-    # (4) OPEN specifiers
+            ctx.fail(f'C05:identifier:{cls(i["trig"])}', case, f'variable {i["name"]} not among {sorted(names)}')
+
+    # ---- (3) regenerated code: same statements, same comments --------------------------------------------
     out = sf.to_fortran() + '\n'
+    r_stmts, r_comments = scan(out)
+    r_lits = [v for s in r_stmts for v in lits_of(s)]
+    for l in case['lits']:
+        if r_lits.count(l['text']) != o_lits.count(l['text']):
+            ctx.fail(f'C05:{lit_position(l)}:{cls(l["trig"])}', case,
+                     f'literal {l["text"]!r} occurs {o_lits.count(l["text"])}x in the original, {r_lits.count(l["text"])}x in the '
+                     f'regenerated code; regenerated literals {r_lits!r}'[:600])
+    for (kind, idx), text in zip(ctags, o_comments):
+        if r_comments.count(text) != o_comments.count(text):
+            detail = f'comment {text!r} occurs {o_comments.count(text)}x in the original, {r_comments.count(text)}x regenerated: {r_comments!r}'
+            if kind == 'open':
+                ctx.fail(open_sig(case['open'], 'line-tail-changed'), case, detail[:600])
+            else:
+                ctx.fail(f'C05:comment:{cls(case["comments"][idx]["trig"])}', case, detail[:600])
+    for i in case['idents']:
+        want = [s for s in o_stmts if i['name'].lower() in show(s)]
+        if any(r_stmts.count(s) != o_stmts.count(s) for s in want):
+            ctx.fail(f'C05:identifier:{cls(i["trig"])}', case,
+                     f'statements using {i["name"]} changed: {[show(s) for s in want]} vs {[show(s) for s in r_stmts]}'[:600])
     if case['open']:
-        joined = norm_tokens(re.sub(r'&\s*\n\s*&?', '', out))
-        for k, v in case['open']['specs']:
-            if norm_tokens(f'{k}={v}') not in joined:
-                ctx.fail(f'C05:open-specifier-lost:{k.lower()}:{open_shape(case["open"])}', case,
-                         f'{k}={v} missing from regenerated OPEN: ' +
-                         next((ln for ln in out.split(chr(10)) if 'open' in ln.lower()), '?'))
-    # (3) behaviour: reported when nothing above already explains a difference
+        k0 = next(k for k, s in enumerate(o_stmts) if re.match(r'(if\(n>0\))?open\(', s[0]))
+        k1 = next(k for k, s in enumerate(o_stmts) if s[0].startswith('close('))
+        for s in o_stmts[k0:k1 + 2]:
+            if r_stmts.count(s) != o_stmts.count(s):
+                ctx.fail(open_sig(case['open'], 'statement-changed'), case,
+                         f'{show(s)} occurs {o_stmts.count(s)}x in the original, {r_stmts.count(s)}x in the regenerated code: ' +
+                         ' | '.join(show(x) for x in r_stmts if 'open' in x[0] or 'yi0=yi0+1' in x[0])[:500])
+                break
     explained = sum(e['count'] for e in ctx.failures.values()) > nfail0
-    from ..core import Ctx
-    sub = Ctx(ctx.prop_id, ctx.tier, ctx.base_seed) if explained else ctx
-    harness.differential(sub, case, [('kmod.f90', out)], f'C05:{hz}', original=orig, driver=driver)
+    if not explained and (r_stmts != o_stmts or sorted(r_comments) != sorted(o_comments)):
+        diff = next((f'{show(a)} vs {show(b)}' for a, b in zip(o_stmts, r_stmts) if a != b),
+                    f'{len(o_stmts)} vs {len(r_stmts)} statements; comments {o_comments!r} vs {r_comments!r}')
+        ctx.fail('C05:regenerated-code-differs', case, diff[:600])
+        explained = True
+
+    # ---- (4) behaviour, on a deterministic sample of the cases the text oracle accepts -------------------------
+    if explained or not sample_differential or case.get('ibm_line') or int(case_hash(case), 16) % DIFF_SAMPLE:
+        return
+    ctx.count('differential:compiled-and-run')
+    driver = make_driver(case)
+    orig = harness.run_original(case, [{'name': 'kmod.f90', 'text': src}], driver)
+    if not orig.ok:
+        raise harness.GeneratorBug('C05 original traps: ' + orig.brief() + '\n' + src)
+    harness.differential(ctx, case, [('kmod.f90', out)], 'C05:differential', original=orig, driver=driver)
 
 
 def run_shard(ctx):
-    ctx.given(cases(), check_case, ctx.scale(500, 8000))
+    ctx.given(cases(big=ctx.thorough), check_case, ctx.scale(2400, 48000))
 
 
 def replay(case, ctx):
